@@ -366,6 +366,9 @@ class AttributeCollection(MutableMapping[int, Attribute]):
         if Attribute.CODE.AS_PATH in attributes and Attribute.CODE.AS4_PATH in attributes:
             attributes.merge_attributes()
 
+        if Attribute.CODE.AGGREGATOR in attributes and Attribute.CODE.AS4_AGGREGATOR in attributes:
+            attributes.merge_aggregator()
+
         if Attribute.CODE.MP_REACH_NLRI not in attributes and Attribute.CODE.MP_UNREACH_NLRI not in attributes:
             cls.previous = data
             cls.cached = attributes
@@ -548,6 +551,22 @@ class AttributeCollection(MutableMapping[int, Attribute]):
             'parser',
         )
         return left
+
+    def merge_aggregator(self) -> None:
+        # RFC 6793 section 4.2.3: an AGGREGATOR holding AS_TRANS is replaced by AS4_AGGREGATOR,
+        # otherwise AS4_AGGREGATOR is ignored.  Both used to be kept: the aggregator was reported
+        # as AS 23456 and the two attributes were rendered under the same "aggregator" key.
+        from exabgp.bgp.message.open.asn import AS_TRANS
+        from exabgp.bgp.message.update.attribute.aggregator import Aggregator
+
+        aggregator = self[Attribute.CODE.AGGREGATOR]
+        aggregator4 = self[Attribute.CODE.AS4_AGGREGATOR]
+        self.remove(Attribute.CODE.AS4_AGGREGATOR)
+        if not isinstance(aggregator, Aggregator) or not isinstance(aggregator4, Aggregator):
+            return
+        if aggregator.asn == AS_TRANS:
+            self.remove(Attribute.CODE.AGGREGATOR)
+            self.add(Aggregator.make_aggregator(aggregator4.asn, aggregator4.speaker))
 
     def merge_attributes(self) -> None:
         as2path_attr = self[Attribute.CODE.AS_PATH]
